@@ -310,7 +310,9 @@ func bytesValue(ctx context.Context, filename string, data []byte) (rel.Expr, er
 		ctx = context.WithValue(ctx, importChainKey, append(chain[:len(chain):len(chain)], filename))
 	}
 	compile := func() (rel.Expr, error) {
-		return Compile(ctx, filename, string(data))
+		// An imported file is a compilation unit of its own: whether the import
+		// expression stands on the right of a `+>` must not change what the file means.
+		return Compile(withDesugaring(withMerging(ctx, false), false), filename, string(data))
 	}
 	if filename != NoPath {
 		return importcache.GetOrAddFromCache(ctx, filename, compile)
